@@ -275,6 +275,9 @@ func TestC04Rapid(t *testing.T) {
 			ops = []string{"evaluate", "evaluate", "evaluate", "recompile"} // Select on a scalar expression is not part of the API contract
 		}
 		n := rapid.IntRange(2, 10).Draw(rt, "nactions")
+		if rapid.IntRange(0, 19).Draw(rt, "longhistory") == 19 {
+			n = rapid.IntRange(60, 70).Draw(rt, "nactions-long") // the 65th use of one compiled expression
+		}
 		hist := make([]action, n)
 		for i := range hist {
 			hist[i] = action{
